@@ -184,8 +184,8 @@ def _apply(x, which, unit):
         worker.horizon(worker.SHARD_WATCHDOG)
 
 
-def check_state(acc, pendulum, z, inst, units=UNITS, ws=0):
-    rs = routes(pendulum, z, inst)
+def check_state(acc, pendulum, z, inst, units=UNITS, ws=0, rs=None, tag=None):
+    rs = routes(pendulum, z, inst) if rs is None else rs
     ref_f = seeds.fields_of_wall(inst) if z is None else obs.expected_render(z, inst)[0]
     acc.c["impl_states"] += len(rs)
     for unit in units:
@@ -198,6 +198,8 @@ def check_state(acc, pendulum, z, inst, units=UNITS, ws=0):
             sub = f"{which}_of"
             for rname, x in rs:
                 case = {"kind": "state", "z": z, "inst": inst, "unit": unit, "which": which, "route": rname, "ws": ws}
+                if tag:
+                    case["keyless"] = tag
                 status, r = _apply(x, which, unit)
                 acc.c["evaluations"] += 1
                 acc.c["transitions"] += 1
@@ -356,6 +358,25 @@ def run_shard(shard):
                     acc.sample({"zone": z, "instant": obs.iso(trs[0][0] * US - 1), "units": list(UNITS),
                                 "routes": ["converted", "constructed-fold0", "constructed-fold1", "arithmetic"],
                                 "week_starts": shard["week_configs"]})
+        elif k == "keyless":
+            # receivers carrying a DST-aware tzinfo that has no key (dateutil-like): pendulum can only keep the offset in force
+            # at the value, so the model state is (that fixed offset, instant)
+            from .. import foreign
+            for z in shard["zones"]:
+                trs = [tr for tr in seeds.zone_transitions(z) if 1546300800 < tr[0] < 1672531200]
+                for t, ob, oa in trs:
+                    for d in (-max(abs(ob), abs(oa)) - 1, -abs(oa) + 1, -1, 0, 1, abs(oa) - 1, max(abs(ob), abs(oa)) + 1, 5 * 3600, -7 * 3600):
+                        inst = (t + d) * US + 123456
+                        f, xo = obs.expected_render(z, inst)
+                        fold = 1 if (len(tzref.zone(z).solve(obs.wall_us(f) // US)) == 2 and tzref.zone(z).solve(obs.wall_us(f) // US)[1] * US + 123456 == inst) else 0
+                        fx = pendulum.DateTime(*f, tzinfo=foreign.keyless(z), fold=fold)
+                        if obs.instant_us(fx) != inst:
+                            acc.c["seed_not_canonical"] += 1
+                            continue
+                        acc.c["states"] += 1
+                        acc.c["nontrivial"] += 1
+                        check_state(acc, pendulum, xo, inst, ["second", "minute", "hour", "day", "month"], 0, rs=[("keyless-dst-tzinfo", fx)], tag=z)
+            acc.sample({"keyless_dst_tzinfo_receivers_in": shard["zones"]})
         elif k == "dates":
             for ws in range(7):
                 _set_week(pendulum, ws, plain_int=(True if ws == 0 else None))
@@ -374,6 +395,14 @@ def replay_case(case, acc):
         _set_week(pendulum, ws, plain_int=(True if ws == 0 else None))
         if case["kind"] == "date":
             check_date(acc, pendulum, case["n"], ws)
+        elif case.get("keyless"):
+            from .. import foreign
+            zz, inst = case["keyless"], case["inst"]
+            f, xo = obs.expected_render(zz, inst)
+            sol = tzref.zone(zz).solve(obs.wall_us(f) // US)
+            fold = 1 if (len(sol) == 2 and sol[1] * US + inst % US == inst) else 0
+            fx = pendulum.DateTime(*f, tzinfo=foreign.keyless(zz), fold=fold)
+            check_state(acc, pendulum, xo, inst, [case["unit"]], ws, rs=[("keyless-dst-tzinfo", fx)], tag=zz)
         else:
             check_state(acc, pendulum, case["z"], case["inst"], [case["unit"]], ws)
     finally:
@@ -389,6 +418,7 @@ def plan(tier, seed):
     for y in (2, 1899, 1999, 2023, 9890):
         n0 = calref.days_from_civil(y, 1, 1)
         shards.append({"kind": "dates", "n0": n0, "n1": n0 + 731, "step": 1})
+    shards.append({"kind": "keyless", "zones": ["Europe/Paris", "America/New_York", "Australia/Lord_Howe", "Asia/Tehran"]})
     plans = [({"ext": 1, "tz": "sys"}, shards)]
     if thorough:
         plans.append(({"ext": 0, "tz": "pkg"}, shards))
